@@ -246,11 +246,14 @@ def junction_versors(frame, fit, vidx):
         tj.add(ids[-1])
     for v in sorted(tj):
         vert = frame.vertices[v]
-        d = []
+        d, ends = [], []
         for beid in vert.own_big_edges:
-            vs = frame.big_edges[beid].get_versor_from_vertex(v, fit_method=fit)
+            be = frame.big_edges[beid]
+            vs = be.get_versor_from_vertex(v, fit_method=fit)
             d.append([fx(vs[0]), fx(vs[1])])
-        out.append({"v": vidx.get(v, 0), "d": d})
+            bids = be.get_vertices_ids()
+            ends.append([vidx.get(bids[0], 0), vidx.get(bids[-1], 0), len(bids)])      # which interface the direction belongs to
+        out.append({"v": vidx.get(v, 0), "d": d, "ends": ends})
     return out
 
 
